@@ -277,6 +277,80 @@ def gen_lookalike(rng):
     return items
 
 
+
+# ---- (d) the generators' USE of topsort, single- and multi-file mode, through the real binary
+TS_DEF = __import__('re').compile(r'^export (?:interface|type|enum|const) ([A-Za-z_][A-Za-z0-9_]*)', __import__('re').M)
+
+
+def ts_definitions(text):
+    """[(name, text of the definition)] in textual order (TypeScript output: one `export ...` per definition)"""
+    ms = list(TS_DEF.finditer(text))
+    return [(m.group(1), text[m.start():(ms[k + 1].start() if k + 1 < len(ms) else len(text))]) for k, m in enumerate(ms)]
+
+
+def chain_program(rng):
+    """a single-crate program whose natural order (aliases, structs, enums; alphabetical inside each kind) is NOT topological:
+    a DAG over 4-7 definitions of mixed kinds, references by plain name (no generics, no renames, no shadowing: outside every
+    recorded class), names drawn so that users sort BEFORE what they use"""
+    import re
+    n = rng.randint(4, 7)
+    names = sorted(rng.sample(['Alpha', 'Bravo', 'Canvas', 'Delta', 'Echo', 'Frame', 'Golf', 'Hotel', 'India', 'Layer', 'Outline', 'Paint', 'Point', 'Rgb', 'Zeta'], n))
+    kinds = [rng.choice(['struct', 'struct', 'alias', 'enum']) for _ in names]
+    items = []
+    for k, (nm, kd) in enumerate(zip(names, kinds)):
+        later = names[k + 1:]           # uses only LATER names: acyclic, and anti-alphabetical
+        uses = rng.sample(later, min(len(later), rng.choice([0, 1, 1, 2])))
+        wrap = lambda t: rng.choice(['{}', 'Vec<{}>', 'Option<{}>', 'HashMap<String, {}>', '[{}; 2]', 'Box<{}>']).format(t)
+        if kd == 'struct':
+            fs = ''.join(f'    pub f{j}: {wrap(u)},\n' for j, u in enumerate(uses)) or '    pub x: u8,\n'
+            items.append(f'#[typeshare]\npub struct {nm} {{\n{fs}}}\n')
+        elif kd == 'alias':
+            items.append(f'#[typeshare]\npub type {nm} = {wrap(uses[0]) if uses else "u32"};\n')
+        else:
+            vs = ''.join(f'    V{j}({wrap(u)}),\n' for j, u in enumerate(uses)) + '    Unit,\n    Other { a: u8 },\n'
+            items.append(f'#[typeshare]\n#[serde(tag = "t", content = "c")]\npub enum {nm} {{\n{vs}}}\n')
+    rng.shuffle(items)
+    return 'use std::collections::HashMap;\n\n' + '\n'.join(items)
+
+
+def phase_generators(chk, n):
+    import pathlib, re, subprocess
+    rng = chk.rng
+    for k in range(n):
+        src = chain_program(rng)
+        d = vf.tmpdir('verif-c11-')
+        (d / 'ws' / 'shapes' / 'src').mkdir(parents=True)
+        (d / 'ws' / 'shapes' / 'src' / 'lib.rs').write_text(src)
+        (d / 'multi').mkdir()
+        runs = {'single': ['-o', str(d / 'single.ts')], 'multi': ['--output-folder', str(d / 'multi')]}
+        texts = {}
+        for mode, dest in runs.items():
+            p = subprocess.run(['timeout', '30', str(vf.TYPESHARE), '--lang', 'typescript'] + dest + [str(d / 'ws')], capture_output=True, text=True)
+            f = d / 'single.ts' if mode == 'single' else d / 'multi' / 'shapes.ts'
+            texts[mode] = f.read_text() if p.returncode == 0 and f.exists() else None
+        chk.evaluations += 1
+        chk.count('generator_programs')
+        payload = {'phase': 'generators', 'lang': 'typescript', 'source': src}
+        if texts['single'] is None or texts['multi'] is None:
+            chk.violation(f'gen-{k}', dict(payload, single=texts['single'] is not None, multi=texts['multi'] is not None), 'the real binary produced no output for a plain single-crate program')
+            continue
+        for mode in ('single', 'multi'):
+            defs = ts_definitions(texts[mode])
+            names = [nm for nm, _ in defs]
+            declared = sorted(re.findall(r'pub (?:struct|type|enum) (\w+)', src))
+            payload[mode + '_order'] = names
+            if sorted(n_ for n_ in names if n_ in declared) != declared:
+                chk.violation(f'gen-{k}-{mode}', payload, f'{mode}-file mode: the emitted definitions {names} are not a permutation of the annotated items {declared}')
+                break
+            pos = {nm: i for i, nm in enumerate(names)}
+            bad = [(nm, u) for nm, body in defs if nm in declared for u in declared if u != nm and pos[u] > pos[nm] and re.search(rf'\b{u}\b', body.split('\n', 1)[-1] if '{' in body else body)]
+            if bad:
+                chk.violation(f'gen-{k}-{mode}', dict(payload, used_before_defined=bad),
+                              f'{mode}-file mode (typescript): acyclic references, yet {bad[0][0]} is emitted before {bad[0][1]}, which it refers to')
+                break
+        else:
+            chk.nontrivial.add(('gen', src))
+
 def run(chk):
     chk.rule = ('(a) toposort_impl: every graph on <=3 (quick) / <=4 (thorough) nodes with sorted rows incl. self-loops, plus seeded graphs to 12 nodes '
                 '(DAGs and cyclic, duplicate/unsorted rows, a few out-of-range entries); (b) sort_by_indices: every permutation of <=6 (quick) / <=7 '
@@ -287,13 +361,15 @@ def run(chk):
                 'generic parameter (named like an item or not), a const shares the name of another item; plus directed sets built around each of these shapes '
                 '(for structs and for algebraic enums; and harmless look-alikes that are outside every class) in a random acyclic context; plus the former '
                 'witnesses of the repaired classes C11-variant-fields / C11-enum-self-edge, which must pass. Verdict on the REAL order by the extracted good_C11; '
-                'on sets outside the classes the extracted model must itself satisfy good_C11 (theorem C11_topsort_good). non-trivial = distinct inputs with at least one edge / non-identity')
+                'on sets outside the classes the extracted model must itself satisfy good_C11 (theorem C11_topsort_good). (d) the generators\' use of it: seeded single-crate programs whose natural order is anti-topological through the REAL BINARY in single-file (-o) and folder (--output-folder) mode, TypeScript: emitted definitions = a permutation, every definition after the ones its text refers to. non-trivial = distinct inputs with at least one edge / non-identity')
     chk.assumptions = ['the hooks core::verif_hooks::{toposort_impl,sort_by_indices,topsort} are thin wrappers (MANIFEST.hooks)']
-    chk.prepare()
+    chk.prepare(need_cli=True)
     if not chk.harness_ok:
         return
     rng = chk.rng
     corr = []
+    if chk.cli_ok:
+        phase_generators(chk, 40 if chk.tier == 'quick' else 600)
 
     # ---- (a) toposort_impl
     graphs = []
@@ -434,8 +510,21 @@ def run(chk):
 
 
 def replay(chk, path):
-    chk.prepare()
     d = json.load(open(path))
+    if d.get('phase') == 'generators':
+        import subprocess
+        chk.prepare(need_cli=True)
+        t = vf.tmpdir('verif-c11-')
+        (t / 'ws' / 'shapes' / 'src').mkdir(parents=True)
+        (t / 'ws' / 'shapes' / 'src' / 'lib.rs').write_text(d['source'])
+        (t / 'multi').mkdir()
+        subprocess.run([str(vf.TYPESHARE), '--lang', 'typescript', '-o', str(t / 'single.ts'), str(t / 'ws')], capture_output=True)
+        subprocess.run([str(vf.TYPESHARE), '--lang', 'typescript', '--output-folder', str(t / 'multi'), str(t / 'ws')], capture_output=True)
+        print(d['source'])
+        print('single-file order:', [n for n, _ in ts_definitions((t / 'single.ts').read_text())])
+        print('folder-mode order:', [n for n, _ in ts_definitions((t / 'multi' / 'shapes.ts').read_text())], ' recorded:', d.get('used_before_defined'))
+        return 1 if d.get('used_before_defined') else 0
+    chk.prepare()
     if 'items' in d:
         print(vf.impl([{'cmd': 'topsort', 'items': d['items']}]))
         print(vf.model([f"(c11_topsort {Lst(d['items'], ir.sx_item)})"]))
